@@ -92,9 +92,16 @@ func Corpus() []Prog {
 		{"lib/stdlib/Duden", "duden"},
 		{"examples", "examples"},
 	}
+	// hand-written seed programs for constructs the repository's corpus lacks (recursive generic functions, generic
+	// Kombinationen inside each other, alias declarations, forward declarations, operator overloads on own types)
+	groups = append(groups, struct{ dir, group string }{filepath.Join(simDir, "corpus_extra"), "extra"})
 	for _, g := range groups {
 		var files []string
-		filepath.WalkDir(filepath.Join(repo, g.dir), func(p string, e os.DirEntry, err error) error {
+		root := filepath.Join(repo, g.dir)
+		if filepath.IsAbs(g.dir) {
+			root = g.dir
+		}
+		filepath.WalkDir(root, func(p string, e os.DirEntry, err error) error {
 			if err == nil && !e.IsDir() && filepath.Ext(p) == ".ddp" {
 				files = append(files, p)
 			}
@@ -109,6 +116,9 @@ func Corpus() []Prog {
 				continue
 			}
 			rel, _ := filepath.Rel(repo, f)
+			if g.group == "extra" {
+				rel = "verif-extra/" + filepath.Base(f)
+			}
 			isMain := false
 			switch g.group {
 			case "kddp", "stdlib":
